@@ -17,14 +17,11 @@ import (
 func (c *Ctx) types() []*model.Type {
 	var out []*model.Type
 	i := 0
-	for _, t := range model.Types() {
+	for _, t := range model.TypesNoBulk() {
 		if c.OnlyFresh && !t.Fresh {
 			continue
 		}
 		if only := onlyType(); only != "" && !strings.Contains(string(t.Name), only) {
-			continue
-		}
-		if bulkType(string(t.Name)) {
 			continue
 		}
 		if i%c.NShards == c.Shard {
@@ -33,27 +30,6 @@ func (c *Ctx) types() []*model.Type {
 		i++
 	}
 	return out
-}
-
-// bulkType: unit scale declares 110 near-identical messages M000...M109 to get
-// past a hundred types in one file; they are compiled, initialised and covered
-// by the package-level enumerations, but only those around the digit boundaries
-// take part in the per-type value checks.
-func bulkType(name string) bool {
-	const pre = "verif.scale.M"
-	if !strings.HasPrefix(name, pre) || len(name) != len(pre)+3 {
-		return false
-	}
-	switch name[len(pre):] {
-	case "000", "009", "010", "099", "100", "109":
-		return false
-	}
-	for _, ch := range name[len(pre):] {
-		if ch < '0' || ch > '9' {
-			return false
-		}
-	}
-	return true
 }
 
 func (c *Ctx) streamCfg(unknown, canonical bool) *model.StreamCfg {
